@@ -492,9 +492,14 @@ theorem maskName_all (hc : ClosedP P) (hfresh : ∀ n v, P { name := n, kind := 
         · cases pv with
           | some vp =>
             obtain ⟨v, o⟩ := vp
-            simp only [Except.ok.injEq] at h
-            subst h
-            exact { hst with kwo := hst.kwo.pset (hfresh _ _) }
+            simp only at h
+            split at h
+            · simp only [Except.ok.injEq] at h
+              subst h
+              exact ⟨hst.pok, hst.va, hst.kwo, hst.byName⟩
+            · simp only [Except.ok.injEq] at h
+              subst h
+              exact { hst with kwo := hst.kwo.pset (hfresh _ _) }
           | none =>
             simp only [Except.ok.injEq] at h
             subst h
